@@ -282,6 +282,91 @@ def rule_union(ctx, rule):
     return decided
 
 
+DECLARATIONS = [
+    [("only", ("lib",), ["a"]), ("except", ("lib",), ["a"])],
+    [("except", ("lib",), ["a"]), ("only", ("lib",), ["a"])],
+    [("lib",), ("except", ("lib",), ["a", "b", "c"])],
+    [("only", ("lib",), ["b"]), ("except", ("lib",), ["b", "c"]), ("prefix", ("only", ("lib",), ["c"]), "p-")],
+    [("rename", ("only", ("lib",), ["c"]), [("c", "a")]), ("except", ("lib",), ["a", "c"])],
+    [("prefix", ("lib",), "p-"), ("lib",)],
+    [("rename", ("lib",), [("a", "x")]), ("only", ("lib",), ["a"])],
+    [("only", ("lib",), ["a"]), ("only", ("lib",), ["a", "b"])],
+]
+
+
+def declaration_table(fb):
+    """eval_import on declarations of two or three REAL import sets over one library exporting a, b, c (eval_import_set followed, the
+    library answered): what ends up defined in the target environment"""
+    w = World(fb)
+    f = fb.find(ITP + "eval_import")
+    rows = []
+    for decl in DECLARATIONS:
+        exports = [("a", Val("A")), ("b", Val("B")), ("c", Val("C"))]
+        lib, libtok, env = Val("library-name"), Val("library"), Val("env")
+        selfv = [UNKNOWN for _ in w.fields]
+        if "imported_library" in w.fields:
+            selfv[w.fields.index("imported_library")] = Map()
+        ev = []
+
+        def icpt(mc, c, a, tt, g, ev=ev, exports=exports, libtok=libtok):
+            if c == ITP + "get_library":
+                return ok(libtok)
+            if c.endswith("Library::iter_definitions"):
+                return Iter([[n, v] for n, v in exports]) if a and a[0] is libtok else UNKNOWN
+            if c == "environment::LexicalScope::define":
+                ev.append((a[0], a[1], a[2]))
+                return []
+            return NOT
+        sets = []
+        for spec in decl:
+            e = parse_spec(w, spec)
+            sets.append(e if e is not None else w.build(spec, lib))
+        mc = Machine(fb, intercept=icpt, max_visits=14, budget=1500)
+        label = " ".join(show(s_) for s_ in decl)
+        try:
+            res = mc.run(f, [selfv, [list(sets)], env])
+        except (absint.Stuck, absint.Loop) as e:
+            rows.append((label, {"stuck": str(e)}))
+            continue
+        want = {}
+        for spec in decl:
+            for n, v in reference(spec, exports):
+                want[n] = v
+        got = {}
+        for e0, n, v in ev:
+            n = n.flat() if isinstance(n, machine.Text) else n
+            got[n if isinstance(n, str) else repr(n)] = v
+        rows.append((label, {"result": res, "got": got, "want": want, "env_ok": all(e0 is env for e0, _, _ in ev)}))
+    return f, rows
+
+
+def rule_declarations(ctx, rule):
+    """several import sets in one declaration contribute the union of what each yields on its own"""
+    fb = ctx.fb()
+    from .ctx import where_of
+    try:
+        f, rows = declaration_table(fb)
+    except mir.AnchorMissing as e:
+        ctx.undecided(rule, "declaration", str(e))
+        return 0
+    decided = 0
+    for label, d in rows:
+        key = "declaration/(import %s)" % label
+        if "stuck" in d:
+            ctx.undecided(rule, key, "cannot follow eval_import (%s)" % d["stuck"], where_of(f))
+            continue
+        decided += 1
+        good = getattr(d["result"], "name", None) == "Ok" and d["env_ok"] and sorted((n, id(v)) for n, v in d["got"].items()) == sorted(
+            (n, id(v)) for n, v in d["want"].items())
+        ctx.inst(rule, key, {"defines": sorted(d["got"])})
+        ctx.oblige(good)
+        if not good:
+            ctx.report(rule, key, "(import %s) over a library exporting a b c defines %s; the union of the import sets is %s" % (
+                label, sorted((n, repr(v)) for n, v in d["got"].items()) if getattr(d["result"], "name", None) == "Ok" else repr(d["result"]),
+                sorted((n, repr(v)) for n, v in d["want"].items())), where_of(f))
+    return decided
+
+
 def rule_outer_marks(ctx, rule):
     """an import declaration evaluated while an enclosing library is being loaded leaves that library's in-progress mark alone"""
     fb = ctx.fb()
